@@ -460,9 +460,9 @@ class AbsExec:
                     parts.append(v.value if isinstance(v, ast.Constant) else self.ev(v.value, env))  # type: ignore[attr-defined]
             except (Unknown, Internal, Raised):
                 return Opaque("fstring")
-            if self.concrete_strings and all(isinstance(x, str) for x in parts) and not any(getattr(v, "format_spec", None) or getattr(v, "conversion", -1) not in (-1,)
-                                                                                           for v in e.values if isinstance(v, ast.FormattedValue)):
-                return "".join(parts)
+            if self.concrete_strings and all(isinstance(x, (str, int)) and not isinstance(x, bool) for x in parts) and \
+                    not any(getattr(v, "format_spec", None) or getattr(v, "conversion", -1) not in (-1,) for v in e.values if isinstance(v, ast.FormattedValue)):
+                return "".join(str(x) for x in parts)
             return FString(tuple(parts))
         if isinstance(e, ast.Attribute):
             return self.attr(self.ev(e.value, env), e.attr, e)
@@ -1101,6 +1101,11 @@ class AbsExec:
         hook = self.hooks.get(f"method:{name}")
         if hook is not None:
             return hook(self, e, recv, args, kw)
+        if self.concrete_strings and isinstance(recv, str) and name == "format" and all(isinstance(x, (str, int)) and not isinstance(x, bool) for x in list(args) + list(kw.values())):
+            try:
+                return recv.format(*args, **kw)
+            except (IndexError, KeyError, ValueError):
+                raise Internal("IndexError", f"`{unparse(e)[:60]}`", e) from None
         if self.concrete_strings and isinstance(recv, str) and name == "join" and len(args) == 1:
             items_ = list(self.iterate(args[0], e))
             if all(isinstance(x, str) for x in items_):
